@@ -481,6 +481,7 @@ def run(only=None):
         ]
         hist.poisoned_histories(s, funcs, bad_args, probes)
         s.declared = None
+        hist.kept_results(s, "generate", [({"message": m_.hex()}, (lambda m_=m_: RS.generate(m_, MASK_VOICE_LC))) for m_ in msgs], obs=lambda r: bytes(r).hex())
         hist.long_history(s, [RS, _mrs], probes, always=thorough)
         s.done()
 
